@@ -80,6 +80,28 @@ func (ex *Exec) initExternalGlobals(p *ssa.Package) {
 		if g, ok := p.Members["DefaultBondDenom"].(*ssa.Global); ok {
 			ex.globals[g].V = ex.mkStr("stake")
 		}
+		// function-valued aliases of cosmossdk.io/math in sdk/types/math.go
+		alias := map[string]string{
+			"NewIntFromBigInt": "NewIntFromBigInt", "OneInt": "OneInt", "NewInt": "NewInt", "ZeroInt": "ZeroInt",
+			"NewIntFromString": "NewIntFromString", "NewUint": "NewUint", "NewIntFromUint64": "NewIntFromUint64",
+			"MaxInt": "MaxInt", "MinInt": "MinInt",
+			"ZeroDec": "LegacyZeroDec", "OneDec": "LegacyOneDec", "SmallestDec": "LegacySmallestDec", "NewDec": "LegacyNewDec",
+			"NewDecWithPrec": "LegacyNewDecWithPrec", "NewDecFromBigInt": "LegacyNewDecFromBigInt",
+			"NewDecFromBigIntWithPrec": "LegacyNewDecFromBigIntWithPrec", "NewDecFromInt": "LegacyNewDecFromInt",
+			"NewDecFromIntWithPrec": "LegacyNewDecFromIntWithPrec", "NewDecFromStr": "LegacyNewDecFromStr",
+			"MustNewDecFromStr": "LegacyMustNewDecFromStr", "MinDec": "LegacyMinDec", "MaxDec": "LegacyMaxDec",
+		}
+		for gname, fname := range alias {
+			if g, ok := p.Members[gname].(*ssa.Global); ok {
+				if f, ok := intrinsics["cosmossdk.io/math."+fname]; ok {
+					iname := "cosmossdk.io/math." + fname
+					ex.globals[g].V = FuncV{Name: iname, Native: func(ex *Exec, a []Val) Val {
+						ex.res.Intrinsics[iname]++
+						return f(ex, a)
+					}}
+				}
+			}
+		}
 	}
 }
 
